@@ -242,7 +242,10 @@ def r6(ctx):
     """the (non-audited) runners used by backtests process every event taken from the feed, in feed order, until a
     terminal audit or the end of the feed"""
     n = 0
-    for path, label in (("barter::engine::run::async_run::{closure#0}", "async_run"), ("barter::engine::run::sync_run", "sync_run")):
+    # (with AuditMode::Enabled a backtest runs through the audited runners: the same obligations hold for them)
+    for path, label in (("barter::engine::run::async_run::{closure#0}", "async_run"), ("barter::engine::run::sync_run", "sync_run"),
+                        ("barter::engine::run::async_run_with_audit::{closure#0}", "async_run_with_audit"),
+                        ("barter::engine::run::sync_run_with_audit", "sync_run_with_audit")):
         b = ctx.ibody(ctx.find(path=path))
         calls = b.real_calls()
         P = common.processing_sites(calls)
@@ -283,7 +286,20 @@ def r6(ctx):
         term = [(bi, t, tm) for bi, t, tm in calls if tm[1].endswith("Terminal::is_terminal")]
         ctx.check(label, len(term) == 1 and render(term[0][2][2][0]) == render(ptm) + ".event",
                   "the only reason to stop before the feed ends is a terminal audit of the event just processed", got=[render(x[2])[:120] for x in term], key="stop")
-    ctx.floor("runners", n, 2)
+        # ... and the run is declared ended (FeedEnded) in exactly one place, for no reason other than the feed having ended
+        fe = [(bi, tm) for bi, t, tm in calls if tm[1].endswith("Auditor::audit") and "FeedEnded" in render(tm)]
+        extra = []
+        for bi, tm in fe:
+            for conj in b.guard(bi):
+                for a in conj:
+                    r_ = mir.render_atom(a)
+                    if "Terminal::is_terminal(" in r_ or "next(feed)" in r_ or "next(^feed)" in r_:
+                        continue
+                    extra.append(r_[:140])
+        ctx.check(label, len(fe) == 1 and not extra,
+                  "FeedEnded is declared once, when the feed yields no further event - nothing else (a closed audit channel, a flag, a count) ends the run early",
+                  got={"sites": len(fe), "other conditions": sorted(set(extra))}, key="ends-with-feed")
+    ctx.floor("runners", n, 4)
 
 
 def r7(ctx):
